@@ -35,6 +35,8 @@ Theorem C12_permutation : forall (h : N -> N) l l',
 Proof. exact winner_perm. Qed.
 
 (* ... and on the hash inputs (names, address) of those nodes only *)
+(* by typing: the choice is a function of the list and of [h : N -> N]; which address is
+   hashed is outside the model (harness), see C12_identical_for_every_service_refuted *)
 Theorem C12_depends_only_on_names_and_address : forall (h h' : N -> N) l,
   (forall n, In n l -> h n = h' n) -> argmin h l = argmin h' l.
 Proof. exact argmin_ext_h. Qed.
@@ -55,3 +57,19 @@ Example C12_nonvacuous :
   let h := fun n => match n with 1 => 50 | 2 => 20 | 3 => 70 | _ => 0 end in
   argmin h [1;2;3] = Some 2 /\ argmin h [1;3] = Some 1 /\ argmin h [3;1;2] = Some 2.
 Proof. vm_compute. repeat split. Qed.
+
+(* on views, as the property observes it: shrinking the eligible set without removing
+   the announcer leaves the announcer unchanged *)
+Theorem C12_view_remove_nonowner : forall h v v' w,
+  inj_on h (available v') ->
+  (forall n, eligible v' n -> eligible v n) -> eligible v' w ->
+  decide h v w = true -> decide h v' w = true.
+Proof. exact view_remove_nonowner. Qed.
+
+(* the clause "identical ... for every Service using that address" is false for the same
+   reason as in C04 (finding F8: the hash input is each Service's FIRST address) *)
+Theorem C12_identical_for_every_service_refuted :
+  exists (h4 h6 : N -> N) (v : view) (n1 n2 : N),
+    inj_on h4 (available v) /\ inj_on h6 (available v) /\
+    decide h4 v n1 = true /\ decide h6 v n2 = true /\ n1 <> n2.
+Proof. exact shared_address_refuted. Qed.
